@@ -305,6 +305,7 @@ DEFAULT_STYLE_V2 = {
     "bond_extras": False,
     "zero_entries": False,  # explicit zero-valued entries (M  RAD ... 0) for unlabelled atoms
     "text_after_end": False,
+    "interleave": False,
 }
 
 
@@ -430,6 +431,17 @@ def render_v2000(mol, listing=None, style=None, with_model=False):
         props += others[: rnd.randint(1, 5)]
     if st["shuffle_props"]:
         rnd.shuffle(props)
+    if st.get("interleave"):
+        # property lines of different kinds interleaved (a writer emitting atom by atom);
+        # 'A'/'G' lines keep their text line directly behind them
+        units = []
+        for grp in props:
+            if grp and grp[0][:3] in ("A  ", "G  "):
+                units.append(grp)
+            else:
+                units.extend([ln] for ln in grp)
+        rnd.shuffle(units)
+        props = units
     prop_lines = [ln for grp in props for ln in grp]
 
     counts = f"{n:3d}{mol.m:3d}{len(list_lines):3d}  0{rnd.choice([0, 1]) if st['other_lines'] else 0:3d}  0  0  0  0  0999 V2000"
